@@ -102,19 +102,9 @@ CHECK_DEADLOCK FALSE
 
 
 def run_model(name, scratch, live=False, workers=None, timeout=900, extra=None, extra_invs=()):
-    import shutil
     mod, d = write_model(name, scratch, live, extra_invs)
-    stage = os.path.join(scratch, 'stage-mc-' + name + ('-live' if live else ''))
-    if os.path.exists(stage):
-        shutil.rmtree(stage)
-    shutil.copytree(vlib.SPEC, stage)
-    shutil.copy(os.path.join(d, mod + '.tla'), stage)
-    old = vlib.SPEC
-    vlib.SPEC = stage
-    try:
-        return vlib.run_tlc(mod, os.path.join(d, mod + '.cfg'), scratch, workers=workers, tag='mc-' + name + ('-live' if live else ''), timeout=timeout, extra=extra, heap='8g')
-    finally:
-        vlib.SPEC = old
+    return vlib.run_tlc(mod, os.path.join(d, mod + '.cfg'), scratch, workers=workers, tag='mc-' + name + ('-live' if live else ''),
+                        timeout=timeout, extra=extra, heap='8g', extra_modules=[os.path.join(d, mod + '.tla')])
 
 
 if __name__ == '__main__':
